@@ -26,7 +26,7 @@ func (d zzDirEntry) Type() fs.FileMode {
 }
 func (d zzDirEntry) Info() (fs.FileInfo, error) { return nil, nil }
 
-var zzPathAlphabet = []byte{'.', '/', 'a', 'b'}
+var zzPathAlphabet = []byte{'.', '/', 'a', 'b', '\\'}
 
 func zzHasSuffix(s, suf string) bool {
 	return len(s) >= len(suf) && s[len(s)-len(suf):] == suf
